@@ -242,41 +242,26 @@ class TranslatorSMT2(Translator):
         elif expr.op == "cnttrailzeros":
             src = res
             size = expr.size
-            size_smt2 = bit_vec_val(size, size)
             one_smt2 = bit_vec_val(1, size)
             zero_smt2 = bit_vec_val(0, size)
-            # src & (1 << (size - 1))
-            op = bvand(src, bvshl(one_smt2, bvsub(size_smt2, one_smt2)))
-            # op != 0
-            cond = smt2_distinct(op, zero_smt2)
-            # ite(cond, size - 1, src)
-            res = smt2_ite(cond, bvsub(size_smt2, one_smt2), src)
-            for i in range(size - 2, -1, -1):
-                # smt2 expression of i
+            # no bit set: the width
+            res = bit_vec_val(size, size)
+            for i in range(size - 1, -1, -1):
                 i_smt2 = bit_vec_val(i, size)
-                # src & (1 << i)
                 op = bvand(src, bvshl(one_smt2, i_smt2))
-                # op != 0
                 cond = smt2_distinct(op, zero_smt2)
-                # ite(cond, i, res)
                 res = smt2_ite(cond, i_smt2, res)
         elif expr.op == "cntleadzeros":
             src = res
             size = expr.size
             one_smt2 = bit_vec_val(1, size)
             zero_smt2 = bit_vec_val(0, size)
-            # (src & 1) != 0
-            cond = smt2_distinct(bvand(src, one_smt2), zero_smt2)
-            # ite(cond, 0, src)
-            res= smt2_ite(cond, zero_smt2, src)
-            for i in range(size - 1, 0, -1):
-                index = - i % size
+            # no bit set: the width
+            res = bit_vec_val(size, size)
+            for index in range(size):
                 index_smt2 = bit_vec_val(index, size)
-                # src & (1 << index)
                 op = bvand(src, bvshl(one_smt2, index_smt2))
-                # op != 0
                 cond = smt2_distinct(op, zero_smt2)
-                # ite(cond, index, res)
                 value_smt2 = bit_vec_val(size - (index + 1), size)
                 res = smt2_ite(cond, value_smt2, res)
         else:
